@@ -752,7 +752,8 @@ def case_rep_bulk(case):
         g = gens[name.lower()]
         g = g if name.islower() else np.linalg.inv(g)
         rep[name] = Cls(g.copy(), column_vectors=True)
-    words = list(all_words(L))
+    cont = case.get("container", "list")
+    words = list(word_container(cont, L, rep))          # the reference list; every accessor gets a FRESH container
     v, t = [], 0
     A, B = a.astype(complex), b.astype(complex)
     exp = np.array([word_matrix(w, A, B) for w in words])
@@ -761,11 +762,11 @@ def case_rep_bulk(case):
     if not np.max(np.abs(singles - exp)) <= 1e-9 * (1 + np.max(np.abs(exp))):
         v.append(V("rep/bulk/single-word/%s/%s" % (kind, dt), "rep[w] differs from the oracle product for some word"))
         return {"v": v, "t": t, "o": "single", "nt": True}
-    accessors = [("elements", lambda: rep.elements(words))]
+    accessors = [("elements", lambda: rep.elements(word_container(cont, L, rep)))]
     if hasattr(rep, "transformations"):
-        accessors.append(("transformations", lambda: rep.transformations(words)))
+        accessors.append(("transformations", lambda: rep.transformations(word_container(cont, L, rep))))
     if kind == "hyp":
-        accessors.append(("isometries", lambda: rep.isometries(words)))
+        accessors.append(("isometries", lambda: rep.isometries(word_container(cont, L, rep))))
     if kind == "proj":
         pt = rows(3, 1, m, True)[0]
     else:
@@ -777,19 +778,54 @@ def case_rep_bulk(case):
         t += 1
         got = np.swapaxes(np.asarray(T.proj_data), -1, -2).astype(complex)
         if got.shape != exp.shape:
-            v.append(V("rep/bulk/%s/shape" % name, "shape %r, expected %r" % (got.shape, exp.shape)))
+            v.append(V("rep/bulk/%s/shape" % name, "words given as %s (%d words): shape %r, expected %r" % (cont, len(words), got.shape, exp.shape)))
             continue
         bad = [w for w, g, e in zip(words, got, exp) if not np.max(np.abs(g - e)) <= 1e-9 * (1 + np.max(np.abs(e)))]
         if bad:
-            v.append(V("rep/bulk/%s/value/%s/%s" % (name, kind, dt), "%s(words) differs from rep[w] for %d words, e.g. %r: got\n%r\nexpected\n%r (generators assigned in order %r)"
-                       % (name, len(bad), bad[0], got[words.index(bad[0])], exp[words.index(bad[0])], order)))
+            v.append(V("rep/bulk/%s/value/%s/%s" % (name, kind, dt), "%s(words given as %s) differs from rep[w] for %d words, e.g. %r: got\n%r\nexpected\n%r (generators assigned in order %r)"
+                       % (name, cont, len(bad), bad[0], got[words.index(bad[0])], exp[words.index(bad[0])], order)))
             continue
         img = T @ Pt(pt.copy())
         t += 1
         e = float(np.max(hyp.proj_sin_err(np.asarray(img.proj_data).astype(complex), expimg)))
         if not e <= 1e-9:
             v.append(V("rep/bulk/%s/action/%s/%s" % (name, kind, dt), "%s(words) @ p differs from M_w p^T (sin err %.3g)" % (name, e)))
-    return {"v": v, "t": t, "o": repr((kind, m, tuple(order), dt)), "nt": True}
+    return {"v": v, "t": t, "o": repr((kind, m, tuple(order), dt, cont)), "nt": True}
+
+
+# every legal way of handing "an iterable of words" to a bulk accessor; the one-shot kinds can be walked only once
+WORD_CONTAINERS = ["list", "tuple", "dict-keys", "dict", "ndarray", "generator", "list-iterator", "map", "chain",
+                   "free_words_less_than", "fsa.enumerate_words"]
+
+
+def word_container(kind, L, rep):
+    """A fresh iterable of words of the given kind (all words over {a,b,A,B} of length <= L in a fixed order; for
+    the last two kinds the freely reduced ones, produced by the library's own word generators)."""
+    words = list(all_words(L))
+    if kind == "list":
+        return words
+    if kind == "tuple":
+        return tuple(words)
+    if kind == "dict-keys":
+        return dict.fromkeys(words).keys()
+    if kind == "dict":
+        return dict.fromkeys(words)
+    if kind == "ndarray":
+        return np.array(words)
+    if kind == "generator":
+        return (w for w in words)
+    if kind == "list-iterator":
+        return iter(words)
+    if kind == "map":
+        return map(str.swapcase, [w.swapcase() for w in words])
+    if kind == "chain":
+        return itertools.chain(words[:3], words[3:])
+    if kind == "free_words_less_than":
+        return rep.free_words_less_than(L + 1)
+    if kind == "fsa.enumerate_words":
+        from geometry_tools.automata import fsa
+        return fsa.free_automaton(["a", "b"]).enumerate_words(L)
+    raise ValueError(kind)
 
 
 # histories of ONE representation object: the word images always belong to the CURRENT generators
@@ -1332,9 +1368,12 @@ def run(ctx):
         bulk = [{"kind": "proj", "m": m, "order": o, "dtypes": dt, "L": 3 if q else 4}
                 for m in (2, 3) for o in orders for dt in ("complex-then-real", "int", "float")]
         bulk += [{"kind": "hyp", "m": m, "order": o, "dtypes": "float", "L": 3 if q else 4} for m in (3, 4) for o in orders[:3]]
+        bulk = [dict(c, container=k) for k in WORD_CONTAINERS for c in bulk]
         ctx.product("representations-bulk", "checks.c03:case_rep_bulk", bulk, chunk=2,
                     domains={"assignment orders": orders, "generator dtypes": ["complex a + real b", "int64 a, b", "float64"],
-                             "accessors": ["elements", "transformations", "isometries"], "words": "all words over {a,b,A,B} up to length %d" % (3 if q else 4)})
+                             "accessors": ["elements", "transformations", "isometries"],
+                             "container the words are handed over in (a fresh one per accessor call)": WORD_CONTAINERS,
+                             "words": "all words over {a,b,A,B} up to length %d" % (3 if q else 4)})
         ctx.product("representations", "checks.c03:case_rep", cases, chunk=128,
                     domains={"configurations": len(cfgs), "words": "all words over {a,b,A,B} of length <= %d" % L,
                              "points": "a single point, a composite (3,) point, a stacked composite (2,) point",
